@@ -138,6 +138,9 @@ def run(ctx):
                 f['exclude'] = rng.random() < 0.7
             else:
                 break
+        if rng.random() < 0.2:
+            for f in fields:
+                f['default'] = True           # every field defaulted: Cls() has an EMPTY set-field record
         user_eq = rng.random() < 0.15
         flags = tuple((f['kind'], f['compare'], f['hash'], f['repr'], bool(f.get('exclude'))) for f in fields)
         point = (eq, order, frozen, unsafe_hash, explicit, user_eq)
@@ -274,7 +277,18 @@ def run(ctx):
             return
         ctx.case((point, flags, 'frozen'))
         # ---- copy / deepcopy / replace ------------------------------------------------------------------------------------
-        for (c, a) in insts[:3]:
+        # besides fully supplied instances: ones that leave defaulted fields unset (partial and empty set-field records)
+        n_req = len([f for f in fields if not f['default']])
+        partials = []
+        for k_ in sorted({n_req, (n_req + len(fields)) // 2}):
+            if k_ < len(fields):
+                o = observe(lambda: cls(*[list(v) if isinstance(v, list) else v for v in [POOL[f['kind']][1] for f in fields[:k_]]]))
+                if o.kind == 'value':
+                    partials.append(((1,) * len(fields), o.val))
+                    ctx.count('partial_record_instances')
+                    if k_ == 0:
+                        ctx.count('empty_record_instances')
+        for (c, a) in insts[:3] + partials:
             for cname, op in (('copy', copy.copy), ('deepcopy', copy.deepcopy)):
                 o = observe(op, a)
                 ctx.count('copy_checks')
